@@ -32,13 +32,19 @@ theorem unsubscribe_notifies_once (b : B) (c : Conn) (ssid : Path) (channel : By
       else [] := Broker.unsubscribeConn_out b c ssid channel h1
 
 /-- a notification reaches exactly the clients that asked for changes on that channel or on a
-parent of it and have not cancelled (their presence subscription is an ordinary counter) -/
-theorem notification_receivers (b : B) (h : Sync b) (event : String) (c : Conn) (ssid : Path) (channel : Bytes)
-    (n : String) (p : Pkt) :
-    (n, p) ∈ notify b event c ssid channel ↔
-      (∃ f, p = .json (strBytes "emitter/presence/") f) ∧
-      ∃ w ∈ b.conns, w.name = n ∧ w.alive = true ∧ receives b.mode w (presenceSsid ssid) :=
-  Broker.notify_receivers b h event c ssid channel n p
+parent of it and have not cancelled (their presence subscription is an ordinary counter), and
+they all get the same JSON packet on the presence topic.
+
+AMENDED (see `Broker.notify_receivers`): the original form had `∃ f, p = .json … f` inside the
+equivalence for a given `p`, which is false from right to left (any JSON text `f` would have to be
+delivered; refuted by `Broker.notify_receivers_original_false`). The field text is now
+quantified once, outside the equivalence. -/
+theorem notification_receivers (b : B) (h : Sync b) (event : String) (c : Conn) (ssid : Path) (channel : Bytes) :
+    ∃ f, ∀ (n : String) (p : Pkt),
+      (n, p) ∈ notify b event c ssid channel ↔
+        p = .json (strBytes "emitter/presence/") f ∧
+        ∃ w ∈ b.conns, w.name = n ∧ w.alive = true ∧ receives b.mode w (presenceSsid ssid) :=
+  Broker.notify_receivers b h event c ssid channel
 
 theorem sync_step (auth : Auth) (b : B) (name : String) (r : Req) (h : Sync b) :
     Sync (step auth b name r).1 := Broker.sync_step auth b name r h
